@@ -14,13 +14,13 @@
    class [dv_canonical].
    The conversion clauses (lossy <-> lossless; model/RelConv.v, through cone C11's model of
    RelationBuilder::build and cone C10's accessor and reader models) are the C14_conv_... theorems:
-   text equality for every value, the way back for every valid value, and "the lossless reader
-   reads the printed text as the same structure" for the valid values whose printed form is in
-   the Policy grammar of cone C10 ([relation_policy_ok]); [C14_conv_full] is the statement without
-   that last restriction and stays a Definition (see C14_conv_partial). *)
+   text equality for every value, the way back and "the lossless reader reads the printed text as
+   the same structure" for every valid value (the latter through cone C10's image theorem for the
+   liberal layouts, which also cover "[]", "<>" and versions with empty colon parts);
+   [C14_conv_full] puts the three clauses together and is a theorem. *)
 From V.model Require Import Base RelLex RelParse RelLossy RelConv.
 From V.proofs Require Import RelLossyP.
-From V.proofs Require RelConvP RelConvReadP.
+From V.proofs Require RelConvP RelConvAllP.
 
 (* ---------------------------------------------------------------- totality: every string *)
 Theorem C14_relation_total : forall (V : Type) (vparse : str -> option V) (s : str),
@@ -224,30 +224,31 @@ Check C14_conv_back :
      exists t, field_to_lossless rs = Ok t /\ field_to_lossy t = Ok rs).
 Print Assumptions C14_conv_back.
 
-(* 3. the lossless reader reads the printed lossy text as the same structure:
+(* 3. the lossless reader reads the printed lossy text as the same structure, for EVERY valid value:
       text.parse::<lossless::Relation>() converted to lossy is r; likewise Entry and Relations (strict
-      from_str, and parse_relaxed without error and with the text conserved).  Domain: the valid values
-      whose printed form lies in the Policy grammar cone C10's reader theorem is about. *)
+      from_str, and parse_relaxed(_, true) without error and with the text conserved).  Also for an
+      empty architecture list " []", an empty profile group " <>" and versions such as "7:1::2". *)
 Theorem C14_conv_read :
-  (forall r : relation dversion, relation_policy_ok r = true ->
+  (forall r : relation dversion, relation_okb r = true ->
      read_as_lossy (print_relation dv_print r) = Ok r) /\
-  (forall e : list (relation dversion), entry_policy_ok e = true ->
+  (forall e : list (relation dversion), e <> [] -> forallb relation_okb e = true ->
      read_entry_as_lossy (print_entry dv_print e) = Ok e) /\
-  (forall rs : list (list (relation dversion)), relations_policy_ok rs = true ->
+  (forall rs : list (list (relation dversion)), relations_okb rs = true ->
      read_field_as_lossy (print_relations dv_print rs) = Ok rs /\
      exists t, RelParse.relations_from_str (print_relations dv_print rs) = Ok t /\
                parse_relaxed (print_relations dv_print rs) true = Ok (t, 0) /\
                text t = print_relations dv_print rs /\ field_to_lossy t = Ok rs).
 Proof.
-  split; [exact RelConvReadP.read_as_lossy_rt|]. split; [exact RelConvReadP.read_entry_as_lossy_rt|].
-  intros rs H. split; [apply RelConvReadP.read_field_as_lossy_rt, H|apply RelConvReadP.read_field, H].
+  split; [exact RelConvAllP.read_as_lossy_all|]. split.
+  - intros e Hne H. apply RelConvAllP.read_entry_as_lossy_all. destruct e; [congruence|exact H].
+  - intros rs H. split; [apply RelConvAllP.read_field_as_lossy_all, H|apply RelConvAllP.read_field_all, H].
 Qed.
 Check C14_conv_read :
-  (forall r : relation dversion, relation_policy_ok r = true ->
+  (forall r : relation dversion, relation_okb r = true ->
      read_as_lossy (print_relation dv_print r) = Ok r) /\
-  (forall e : list (relation dversion), entry_policy_ok e = true ->
+  (forall e : list (relation dversion), e <> [] -> forallb relation_okb e = true ->
      read_entry_as_lossy (print_entry dv_print e) = Ok e) /\
-  (forall rs : list (list (relation dversion)), relations_policy_ok rs = true ->
+  (forall rs : list (list (relation dversion)), relations_okb rs = true ->
      read_field_as_lossy (print_relations dv_print rs) = Ok rs /\
      exists t, RelParse.relations_from_str (print_relations dv_print rs) = Ok t /\
                parse_relaxed (print_relations dv_print rs) true = Ok (t, 0) /\
@@ -255,36 +256,24 @@ Check C14_conv_read :
 Print Assumptions C14_conv_read.
 
 (* The conversion clauses in full: all three for every valid relation. *)
-Definition C14_conv_clauses (dom : relation dversion -> bool) : Prop :=
-  forall r : relation dversion, dom r = true ->
+Definition C14_conv_full : Prop :=
+  forall r : relation dversion, relation_okb r = true ->
     (exists l, to_lossless r = Ok l
                /\ text l = print_relation dv_print r            (* the lossless form prints the lossy text *)
                /\ to_lossy l = Ok r)                            (* and converts back to the original value *)
     /\ (exists l', RelParse.relation_from_str (print_relation dv_print r) = Ok l'
                    /\ to_lossy l' = Ok r).                      (* the lossless reader reads the same structure *)
-Definition C14_conv_full : Prop := C14_conv_clauses relation_okb.
 
-(* PROVED: C14_conv_full with the domain narrowed to [relation_policy_ok].
-   MISSING for C14_conv_full itself: the last clause (only that one; C14_conv_text and C14_conv_back
-   cover the first two on all of [relation_okb]) for the valid values that are outside the grammar of
-   cone C10, namely (a) an architecture list present but empty, printed " []"; (b) an empty profile
-   group, printed " <>"; (c) a version one of whose colon-separated pieces is empty ("7:1::2", "5::",
-   "7:1:": canonical for debversion, which allows colons in the upstream part when there is an epoch).
-   The reader model RelParse accepts all three (and the rel-lossy-conv stream shows the
-   implementation reading them back correctly); what is missing is a reader theorem for them:
-   RelGrammar.group_ok demands at least one term and RelGrammar.vclause_ok non-empty pieces. *)
-Theorem C14_conv_partial : C14_conv_clauses relation_policy_ok.
+Theorem C14_conv_full_holds : C14_conv_full.
 Proof.
-  intros r H. assert (Hok : relation_okb r = true).
-  { unfold relation_policy_ok in H. do 3 (apply andb_true_iff in H; destruct H as [H _]). exact H. }
-  split.
-  - eexists. split; [apply RelConvP.to_lossless_tree|]. split; [apply RelConvP.conv_tree_text|apply RelConvP.to_lossy_conv_tree, Hok].
-  - pose proof (RelConvReadP.read_as_lossy_rt r H) as R. unfold read_as_lossy in R.
+  intros r H. split.
+  - eexists. split; [apply RelConvP.to_lossless_tree|]. split; [apply RelConvP.conv_tree_text|apply RelConvP.to_lossy_conv_tree, H].
+  - pose proof (RelConvAllP.read_as_lossy_all r H) as R. unfold read_as_lossy in R.
     destruct (RelParse.relation_from_str (print_relation dv_print r)) as [l'| | |]; try discriminate.
     exists l'. split; [reflexivity|exact R].
 Qed.
-Check C14_conv_partial : C14_conv_clauses relation_policy_ok.
-Print Assumptions C14_conv_partial.
+Check C14_conv_full_holds : C14_conv_full.
+Print Assumptions C14_conv_full_holds.
 
 (* ---------------------------------------------------------------- the code before the patch *)
 Theorem C14_old_negated_arch_refuted :                      (* a [!amd64] — DESIGN §5 row 12 *)
@@ -376,10 +365,6 @@ Example C14_ex_space_before_paren :             (* "a (>= 1 )": accepted since /
     = Ok (mkRel [97%N] None None (Some (VC_ge, mkDv None [49%N] None)) []) /\
   old_relation_from_str dv_parse [97; 32; 40; 62; 61; 32; 49; 32; 41]%N = Err 4%N.
 Proof. vm_compute. split; reflexivity. Qed.
-Example C14_ex_conv_domain :                    (* the policy domain is inhabited by the value with every part present *)
-  relations_policy_ok [[ex_full; ex_plain]; [ex_plain]] = true /\ relation_policy_ok ex_empty_lists = false /\
-  relation_okb ex_empty_lists = true.
-Proof. vm_compute. repeat split. Qed.
 Example C14_ex_conv :                           (* foo:any (>= 1:2.0~rc1-3) [amd64 !i386] <!nocheck cross> <stage1> | b *)
   exists t, entry_to_lossless [ex_full; ex_plain] = Ok t /\
             text t = print_entry dv_print [ex_full; ex_plain] /\
@@ -388,13 +373,18 @@ Example C14_ex_conv :                           (* foo:any (>= 1:2.0~rc1-3) [amd
 Proof.
   exists (RelConvP.entry_tree [ex_full; ex_plain]). split; [apply RelConvP.entry_to_lossless_tree|].
   split; [apply RelConvP.entry_tree_text|]. split; [apply RelConvP.entry_to_lossy_tree; reflexivity|].
-  rewrite RelConvP.entry_tree_text. apply RelConvReadP.read_entry_as_lossy_rt. reflexivity.
+  rewrite RelConvP.entry_tree_text. apply RelConvAllP.read_entry_as_lossy_all. reflexivity.
 Qed.
-Example C14_ex_conv_outside_policy :            (* "c [] <>": outside C14_conv_read's domain, yet read back by the model *)
+Example C14_ex_conv_degenerate :                (* "c [] <>" and a version with an empty colon part are in the domain *)
+  relation_okb ex_empty_lists = true /\
   read_as_lossy (print_relation dv_print ex_empty_lists) = Ok ex_empty_lists /\
-  read_as_lossy [97; 32; 40; 61; 32; 55; 58; 49; 58; 58; 50; 41]%N                     (* a (= 7:1::2) *)
-    = Ok (mkRel [97%N] None None (Some (VC_eq, mkDv (Some 7%N) [49; 58; 58; 50]%N None)) []).
-Proof. vm_compute. split; reflexivity. Qed.
+  (let r := mkRel [97%N] None None (Some (VC_eq, mkDv (Some 7%N) [49; 58; 58; 50]%N None)) [] in   (* a (= 7:1::2) *)
+   relation_okb r = true /\ print_relation dv_print r = [97; 32; 40; 61; 32; 55; 58; 49; 58; 58; 50; 41]%N /\
+   read_as_lossy (print_relation dv_print r) = Ok r).
+Proof.
+  split; [reflexivity|]. split; [apply RelConvAllP.read_as_lossy_all; reflexivity|].
+  cbv zeta. split; [reflexivity|]. split; [reflexivity|apply RelConvAllP.read_as_lossy_all; reflexivity].
+Qed.
 Example C14_ex_errors :                         (* both outcomes of the totality theorems occur *)
   relation_from_str dv_parse [97; 32; 40]%N = Err 3%N /\                        (* "a (" *)
   relations_from_str dv_parse [97; 124]%N = Err 10%N /\                          (* "a|" *)
